@@ -336,6 +336,48 @@ def enum_exact(un, bin_, leaves, k, key=None):
     return out
 
 
+_COUNT_CACHE = {}
+
+
+def count_exact(un, bin_, leaves, k):
+    """Number of formulas enum_exact would produce, without producing them."""
+    ck = (len(un), len(bin_), len(leaves), k)
+    if ck not in _COUNT_CACHE:
+        if k == 0:
+            r = len(leaves)
+        else:
+            r = len(un) * count_exact(un, bin_, leaves, k - 1)
+            r += len(bin_) * sum(count_exact(un, bin_, leaves, j) * count_exact(un, bin_, leaves, k - 1 - j)
+                                 for j in range(k))
+        _COUNT_CACHE[ck] = r
+    return _COUNT_CACHE[ck]
+
+
+def formula_at(un, bin_, leaves, k, i):
+    """The i-th formula of enum_exact(un, bin_, leaves, k), by mixed-radix decoding."""
+    if k == 0:
+        return leaves[i]
+    c1 = count_exact(un, bin_, leaves, k - 1)
+    if i < len(un) * c1:
+        return un[i // c1][1](formula_at(un, bin_, leaves, k - 1, i % c1))
+    i -= len(un) * c1
+    block = sum(count_exact(un, bin_, leaves, j) * count_exact(un, bin_, leaves, k - 1 - j) for j in range(k))
+    mk = bin_[i // block][1]
+    r = i % block
+    for j in range(k):
+        cj, cr = count_exact(un, bin_, leaves, j), count_exact(un, bin_, leaves, k - 1 - j)
+        if r < cj * cr:
+            return mk(formula_at(un, bin_, leaves, j, r // cr), formula_at(un, bin_, leaves, k - 1 - j, r % cr))
+        r -= cj * cr
+    raise IndexError(i)
+
+
+def enum_strided(un, bin_, leaves, k, stride, offset=0):
+    """Every stride-th formula with exactly k operators, without materialising the others."""
+    n = count_exact(un, bin_, leaves, k)
+    return [formula_at(un, bin_, leaves, k, i) for i in range(offset % stride, n, stride)]
+
+
 def enum_upto(un, bin_, leaves, k, key=None):
     out = []
     for i in range(k + 1):
